@@ -140,13 +140,14 @@ def stateful_eval(
         variables.update(get_expression_variables(code, env, aliases))
 
     # Extract the nodes of the graph that correspond to stateful transforms
-    stateful_nodes: dict[str, ast.Call] = {}
-    for node in ast.walk(code):
-        if _is_stateful_transform(node, env):
-            stateful_nodes[format_expr(node)] = cast(ast.Call, node)
+    stateful_nodes: list[tuple[str, ast.Call]] = [
+        (format_expr(node), cast(ast.Call, node))
+        for node in ast.walk(code)
+        if _is_stateful_transform(node, env)
+    ]
 
     # Mutate stateful nodes to pass in state from a shared dictionary.
-    for name, node in stateful_nodes.items():
+    for name, node in stateful_nodes:
         name = name.replace('"', r'\\\\"')
         if name not in state:
             state[name] = {}
